@@ -311,6 +311,9 @@ GLOBAL_REWRITES = [
     # is annotated with its own body read as a spec expression; if Verus cannot read it that way the run ends undecided as before
     ("R43", r"re:\|(\w+)\| ((?:!\s*)?(?:[^(){}|;,=<>!&]|\([^()]*\))+(?:(?:==|!=|<=|>=|<|>|&&)\s*(?:!\s*)?(?:[^(){}|;,=<>!&]|\([^()]*\))+)*)(?=\s*[),;])",
      "@R43"),
+    # R46: an unannotated one-parameter closure that is a pure field projection of its parameter (`|x| x.a.b`, `|x| &x.a`) is
+    # annotated with exactly that (return type inferred; `equal` because the type is not spelled)
+    ("R46", r"re:\|(\w+)\| (&?\*?\1(?:\.\w+)+)(?=\s*[),;])(?!\s*\()", r"|\1| -> (r46_cr: _) ensures equal(r46_cr, \2) { \2 }"),
     ("R40", r"re:(\b[A-Za-z_][\w.]*)\.contains\(('(?:[^'\\]|\\.)+')\)", r"shim_str_contains_char(\1, \2)"),
 ]
 
